@@ -177,6 +177,8 @@ class FakeFrame:
 
     def __getitem__(self, key):
         if isinstance(key, str):
+            if key not in self._d:
+                raise Unsupported("stand-in frame has no column %r" % key)
             return PySeries(self._d[key], key)
         if isinstance(key, slice):
             return FakeFrame({c: v[key] for c, v in self._d.items()})
